@@ -5,6 +5,8 @@ package msgpack
 // Contracts for govc (see /verif/DESIGN.md C17/C16). Comment-only file: it adds no code.
 // The third-party decoder (vmihailenco/msgpack) has no contract: every value it
 // returns is unconstrained, which is how "arbitrary input" is modelled.
+// Memory (alloc_limit): what a decoder allocates up front is bounded by a constant, never by a length header
+// alone (a 5-byte input can announce 2^32 elements); the collections then grow with the elements actually read.
 //
 //@ func msgpack.unmarshal
 //@   tags C17
@@ -20,6 +22,7 @@ package msgpack
 //
 //@ func msgpack.unmarshalList
 //@   tags C17
+//@   alloc_limit 1024
 //@   borrows path
 //@   requires (and (wf_ty ety) (not (has_opt ety)))
 //@   ensures[C17] ok: (=> (= result.1 nil.Any) (decoded_ok result.0 (ty_list ety)))
@@ -44,6 +47,7 @@ package msgpack
 //
 //@ func msgpack.unmarshalSet
 //@   tags C17
+//@   alloc_limit 1024
 //@   borrows path
 //@   requires (and (wf_ty ety) (not (has_opt ety)))
 //@   ensures[C17] ok: (=> (= result.1 nil.Any) (decoded_ok result.0 (ty_set ety)))
@@ -52,6 +56,7 @@ package msgpack
 //
 //@ func msgpack.unmarshalMap
 //@   tags C17
+//@   alloc_limit 1024
 //@   borrows path
 //@   requires (and (wf_ty ety) (not (has_opt ety)))
 //@   ensures[C17] ok: (=> (= result.1 nil.Any) (decoded_ok result.0 (ty_map ety)))
@@ -61,6 +66,7 @@ package msgpack
 //
 //@ func msgpack.unmarshalTuple
 //@   tags C17
+//@   alloc_limit 1024
 //@   borrows path
 //@   let tup (mk.cty.Type (box<cty.typeTuple> (mk.cty.typeTuple mk.cty.typeImplSigil etys)))
 //@   requires (and (wf_ty tup) (not (has_opt tup)))
@@ -71,6 +77,7 @@ package msgpack
 //
 //@ func msgpack.unmarshalObject
 //@   tags C17
+//@   alloc_limit 1024
 //@   borrows path
 //@   requires (and (not (= atys 0)) (MapC<String~cty.Type>.ok (tmap atys)) (forall ((k String)) (! (=> (select (tmap_dom atys) k) (and (= (nfc k) k) (wf_ty (tmap_at atys k)) (not (has_opt (tmap_at atys k))))) :pattern ((select (tmap_dom atys) k)))))
 //@   ensures[C17] ok: (=> (= result.1 nil.Any) (decoded_ok result.0 (mk.cty.Type (box<cty.typeObject> (mk.cty.typeObject mk.cty.typeImplSigil atys 0)))))
@@ -102,3 +109,7 @@ package msgpack
 //@   ensures[C16] number_text: (=> (and (= result nil.Any) (not (is_marked val)) (kn val) (is_number_ty ty) (is_number_ty (vty val)) (= (num_i val) 0) (not (raw_eq val $G<cty.PositiveInfinity>)) (not (raw_eq val $G<cty.NegativeInfinity>)) ((_ is tok_str) (enc.last E))) (= (tok_str.v (enc.last E)) (num_textf 0 (num_r val) (bf.negzero (bf_of val)) (bf.prec (bf_of val)) 102 (- 1))))
 //@   ensures[C16] bool_token: (=> (and (= result nil.Any) (not (is_marked val)) (kn val) (is_bool_ty ty) (is_bool_ty (vty val))) (= (enc.last E) (tok_bool (bool_of val))))
 //@   ensures[C16] string_token: (=> (and (= result nil.Any) (not (is_marked val)) (kn val) (is_string_ty ty) (is_string_ty (vty val))) (= (enc.last E) (tok_str (str_of val))))
+//
+//@ func msgpack.preallocLen
+//@   tags C17
+//@   ensures[C17] bounded: (and (<= result 1024) (<= result length) (=> (<= length 1024) (= result length)))
